@@ -3,11 +3,11 @@ CONSTANTS
   Vals = {0, 16, 48}
   Ramps = {16}
   Jitters = {0}
-  Shapes = {"ramp"}
+  Shapes = {"ramp", "writable", "readable"}
   StartHv = {16}
   StartTarget = {16}
   Depth = 4
-  MaxTargets = 0
+  MaxTargets = 1
   MaxStops = 0
   MaxRamps = 0
   MaxReads = 1
